@@ -652,12 +652,31 @@ def check_C14(tier, seed, rest):
     finish("C14", tier, seed, "model_checking", api_coverage(r), v, t0, ["pairs of definitions are the three hand-written pairs of lib/api.py (str, str with multi-byte characters, bytes)", "reference lexer as in C01"])
 
 
+def apalache_bump():
+    """extra evidence, not the decider: SpanInv is inductive over unbounded integers for the repaired bump,
+    and is not for the store-before-check variant (spec/apalache/BumpInv.tla)"""
+    import subprocess
+    d = os.path.join(os.path.dirname(os.path.dirname(os.path.abspath(__file__))), "spec", "apalache")
+    out = {}
+    for name, nxt in (("repaired_bump_inductive", "Next"), ("store_first_bump_inductive", "NextOld")):
+        try:
+            p = subprocess.run(["timeout", "300", "apalache-mc", "check", "--cinit=ConstInit", "--init=IndInit", "--next=" + nxt, "--inv=SpanInv", "--length=1",
+                                "--out-dir=/tmp/apalache-out-%d" % os.getpid(), "BumpInv.tla"], cwd=d, capture_output=True, text=True)
+            out[name] = "EXITCODE: OK" in p.stdout
+        except Exception as e:
+            out[name] = "not run: %s" % e
+    subprocess.run(["rm", "-rf", "/tmp/apalache-out-%d" % os.getpid(), os.path.join(d, "_apalache-out")])
+    return out
+
+
 def check_C15(tier, seed, rest):
     t0 = time.time()
     from api import api_run
     r = api_run("api", tier, seed, API_CFGS)
     v = [api_violation(f) for f in r["findings"] if f["kind"] == "bump"]
-    finish("C15", tier, seed, "model_checking", api_coverage(r), v, t0, ["usize::MAX-1 and usize::MAX stand for all values whose addition overflows", "after a caught panic the specification requires the lexer to be unchanged"])
+    cov15 = api_coverage(r)
+    cov15["apalache_unbounded_integers"] = apalache_bump()
+    finish("C15", tier, seed, "model_checking", cov15, v, t0, ["usize::MAX-1 and usize::MAX stand for all values whose addition overflows", "after a caught panic the specification requires the lexer to be unchanged"])
 
 
 # ------------------------------------------------------------------------------------------
